@@ -331,6 +331,11 @@ for _sc in range(4):
       defs=["-DGM_SCEN=%d" % _sc, "-Dh_u_genmerge_b=h_u_genmerge_b_%d" % _sc], mem=30, tiers=())
 
 # array helpers of cJSON_Utils.c behind the patch operations on array elements
+for _n in (0, 1, 3):
+    U("u_array_get_b_%d" % _n, "both", "harness/u_array_helpers_b.c", no_contract=True, shape="B", bound="array of exactly %d elements, every 64-bit index" % _n,
+      funcs=["get_array_item (cJSON_Utils.c)"], props=["C15", "C16"], covers=2, unwind=6,
+      defs=["-DAH_N=%d" % _n, "-DAH_OP=2", "-Dh_u_array_helpers_b=h_u_array_get_b_%d" % _n],
+      note="index lookup used by pointer resolution and by patch paths: exact for every size_t index")
 for _op, _opn in ((0, "detach"), (1, "insert")):
     for _n in (0, 1, 2, 3):
         U("u_array_%s_b_%d" % (_opn, _n), "both", "harness/u_array_helpers_b.c", no_contract=True, shape="B", bound="array of exactly %d elements, every index 0..%d" % (_n, _n + 1),
